@@ -162,7 +162,7 @@ def main(argv):
                             fid = "symbol-no-printed-syntax"
                         prop_fail.append({"input": inp, "printed": printed, "route": route, "implementation": got, "specification": want,
                                           "model": mo.get("R"), "agrees_with_model": agrees, "finding": fid,
-                                          "kind": "the printed value does not read back as the original (%s)" % route})
+                                          "kind": "the %sprinted value does not read back as the original (%s)" % ("PRETTY-" if kind in ("pty", "pts") else "", route)})
                     continue
                 if kind == "hist":
                     stats["hist"] = stats.get("hist", 0) + 1
@@ -182,6 +182,23 @@ def main(argv):
                             prop_fail.append({"input": inp, "printed": printed, "route": route, "implementation": got, "specification": want,
                                               "agrees_with_model": agrees, "finding": None,
                                               "kind": "a hash built by a history of hset/hdel: the printed text does not denote the live hash (%s)" % route})
+                    continue
+                if kind == "slit":
+                    stats["slit"] = stats.get("slit", 0) + 1
+                    im, mo, sp = fields(impl), fields(model), fields(spec)
+                    spelling = text_of(im.get("T"))
+                    agrees = im.get("T") == mo.get("T") and im.get("R") == mo.get("R")
+                    if not agrees:
+                        corr_fail.append({"input": inp, "spelling": spelling, "implementation": impl[:400], "model": model[:400],
+                                          "what": "a string / backtick / char literal: the harness's spelling vs Model/StrLit.v str_spelling, the real reader vs lex_all + parse_whole"})
+                    want = sp.get("R", "-")
+                    if want != "-":
+                        wantv = want[4:] if want.startswith("D | ") else want
+                        for route, got, w in (("read as data", im.get("R"), want), ("evaluated (EvalString of the literal)", im.get("E"), wantv)):
+                            if got != w:
+                                prop_fail.append({"input": inp, "spelling": spelling, "route": route, "implementation": got, "specification": w,
+                                                  "agrees_with_model": agrees, "finding": None,
+                                                  "kind": "a string / character literal does not denote exactly the runes written (%s)" % route})
                     continue
                 if kind == "lit":
                     stats["lit"] += 1
@@ -220,7 +237,7 @@ def main(argv):
                             prop_fail.append({"input": inp, "spelling": spelling, "implementation": v, "specification": ref,
                                               "agrees_with_model": v == model, "finding": fid,
                                               "kind": "a spelling in one of the numeric notations is not read as one number"})
-    c.coverage["compared"] = stats["val"] + stats["lit"] + stats["quote"] + stats.get("hist", 0)
+    c.coverage["compared"] = stats["val"] + stats["lit"] + stats["quote"] + stats.get("hist", 0) + stats.get("slit", 0)
     c.coverage["compared_by_kind"] = stats
     c.coverage["traces_validated_against_impl"] = stats["val"] + stats["lit"] + stats["quote"]
     # ---- decide ----
